@@ -274,6 +274,9 @@ func enumerateSurfaceFns(fns []fnInfo, class string, thorough bool, f func(c *sc
 	tuples := argTuples(class, pairKinds(thorough))
 	for _, fn := range fns {
 		for ri := range receivers {
+			if class == "a2" && !thorough && !quickPairReceivers[receivers[ri].Name] {
+				continue // quick tier: the arity-2 product runs on a 12-receiver subset
+			}
 			for _, a := range tuples {
 				f(&scase{fn: fn, recv: ri, args: a})
 			}
